@@ -18,6 +18,8 @@ def entOf (h : Hier) (o : PObj) : Ent := ⟨o.id, o.cls, (h.anc o.cls).map o.att
 structure WFH (h : Hier) : Prop where
   anc_lt : ∀ c a, c < h.n → a ∈ h.anc c → a < h.n
   self : ∀ c, c < h.n → h.isa c c = true
+  /-- no two classes share a polymorphic identity (`polymorphic_map` is a dict) -/
+  ident_inj : ∀ d e v, d < h.n → e < h.n → h.ident d = some v → h.ident e = some v → d = e
 
 theorem mapM_ok {α β : Type} (f : α → Res β) (g : α → β) :
     ∀ (l : List α), (∀ x ∈ l, f x = .ok (g x)) → l.mapM f = .ok (l.map g)
@@ -29,14 +31,50 @@ theorem mapM_ok {α β : Type} (f : α → Res β) (g : α → β) :
 theorem mem_sub (h : Hier) (c d : Nat) : d ∈ h.sub c ↔ d < h.n ∧ h.isa d c = true := by
   simp [Hier.sub, List.mem_filter, List.mem_range]
 
+/-- **in_list_exact**: a value is in the single-table IN list of class `c` iff it is the
+    identity of a (non-abstract) class of `c`'s subtree -/
+theorem mem_inList (h : Hier) (c v : Nat) :
+    v ∈ h.inList c ↔ ∃ d, d < h.n ∧ h.isa d c = true ∧ h.ident d = some v := by
+  simp only [Hier.inList, List.mem_filterMap, mem_sub]
+  constructor
+  · rintro ⟨d, ⟨h1, h2⟩, h3⟩; exact ⟨d, h1, h2, h3⟩
+  · rintro ⟨d, h1, h2, h3⟩; exact ⟨d, ⟨h1, h2⟩, h3⟩
+
+/-- the polymorphic map finds the class that carries the identity -/
+theorem classOf_ident (h : Hier) (hw : WFH h) (d v : Nat) (hd : d < h.n) (hi : h.ident d = some v) :
+    h.classOf v = some d := by
+  unfold Hier.classOf
+  cases hf : (List.range h.n).find? (fun e => h.ident e == some v) with
+  | none =>
+    have := List.find?_eq_none.1 hf d (List.mem_range.2 hd)
+    simp [hi] at this
+  | some e =>
+    have h1 := List.find?_some hf
+    have h2 := List.mem_of_find?_eq_some hf
+    have h3 : h.ident e = some v := by simpa using h1
+    rw [hw.ident_inj e d v (List.mem_range.1 h2) hd h3 hi]
+
+theorem classOf_some (h : Hier) (v d : Nat) (hf : h.classOf v = some d) :
+    d < h.n ∧ h.ident d = some v := by
+  unfold Hier.classOf at hf
+  have h1 := List.find?_some hf
+  have h2 := List.mem_of_find?_eq_some hf
+  exact ⟨List.mem_range.1 h2, by simpa using h1⟩
+
+theorem classOf_none (h : Hier) (v : Nat) (hf : h.classOf v = none) :
+    ∀ d, d < h.n → h.ident d ≠ some v := by
+  intro d hd hi
+  have := List.find?_eq_none.1 hf d (List.mem_range.2 hd)
+  simp [hi] at this
+
 /-! ## single table -/
 
 def storeSingle (h : Hier) (objs : List PObj) : List SRow :=
-  objs.map (fun o => ⟨o.id, some o.cls,
+  objs.map (fun o => ⟨o.id, h.ident o.cls,
     (List.range h.n).map (fun a => if (h.anc o.cls).contains a then o.attr a else none)⟩)
 
 theorem entOfSRow_store (h : Hier) (hw : WFH h) (o : PObj) (ho : o.cls < h.n) :
-    entOfSRow h o.cls ⟨o.id, some o.cls,
+    entOfSRow h o.cls ⟨o.id, h.ident o.cls,
       (List.range h.n).map (fun a => if (h.anc o.cls).contains a then o.attr a else none)⟩ = entOf h o := by
   simp only [entOfSRow, entOf, Ent.mk.injEq, true_and]
   apply List.map_congr_left
@@ -111,7 +149,7 @@ theorem sorted_sortEnts (l : List Ent) : Sorted (sortEnts l) := by
 /-! ## joined tables -/
 
 def storeJoined (h : Hier) (root : Nat) (objs : List PObj) : JTables :=
-  ⟨objs.map (fun o => (o.id, some o.cls, o.attr root)),
+  ⟨objs.map (fun o => (o.id, h.ident o.cls, o.attr root)),
    (List.range h.n).map (fun a => (objs.filter (fun o => h.isa o.cls a)).map (fun o => (o.id, o.attr a)))⟩
 
 theorem mapM_some {α β : Type} (f : α → Option β) (g : α → β) :
